@@ -1,6 +1,6 @@
 """C12 - cw20-ics20: channel balance tracks vouchers exactly; error acks change nothing."""
 from ..engine import show, OPTION
-from ..idioms import dispatch, entry_points, loaded_from, nf, walk, response_entries, NF, update_base
+from ..idioms import dispatch, entry_points, loaded_from, nf, walk, response_entries, NF, update_base, order_facts
 from .icscommon import CRATE, SENDER, items, ack_kind, state_delta, payout_parts
 
 ID = "C12"
@@ -221,8 +221,12 @@ def check_packets(ctx, ex, it):
                                 if pk.get("sender") != snd:
                                     prob = "packet sender %s is not the true initiator" % show(pk.get("sender"))[:100]
                                 else:
-                                    lim = any(c[0][0] == "cmp" and c[0][1] == "lt" and c[0][3] == A and c[1] is False and
-                                              (c[0][2][0] == "const" and c[0][2][1].endswith("MAX") or c[0][2] == ("lit", 2 ** 64 - 1)) for c in p.conds)
+                                    def is_u64max(x):
+                                        return (x[0] == "const" and x[1].endswith("MAX")) or x == ("lit", 2 ** 64 - 1)
+                                    lim = any(lo == A and is_u64max(hi) for lo, hi, strict, c in order_facts(p.conds))
+                                    # or the same bound spelled as a checked narrowing: u64::try_from(amount) = Ok
+                                    lim = lim or any(c[0][0] == "call" and ("try_from" in c[0][1] or "try_into" in c[0][1]) and "u64" in c[0][1]
+                                                     and c[0][2] and c[0][2][-1] == A and c[1] == "Ok" for c in p.conds)
                                     if not lim:
                                         prob = "packet emitted without the guard amount <= u64::MAX (Ics20Packet::validate)"
             ctx.ob("R12.4", key, prob is None, detail=prob, sites=[e.site for e in w], sample={"packet": show(ents[0][1])[:300] if ents else None})
